@@ -114,3 +114,42 @@ Definition sparr_oob : sprogram :=
      sp_shadows := [ {| sh_fn := 4;
                         sh_body := SSeq (SPrint true (ENum 1)) (SAssert (eqz (ECall 4 [EVar 1; ENum 2]) 0));
                         sh_skip := false |} ] ; sp_imported := [] |}.
+
+(* ---- strings as computed values ----
+   let v1: string = "abc"
+   fn f2(v3: string, v4: int) -> string { return (+ v3 (int_to_string v4)) }
+   fn f4(v5: string) -> int { (println v5)  return (str_length v5) } *)
+Definition s_abc : list N := [97; 98; 99].
+Definition pstr : program :=
+  {| pglobals := [(1, TStr, EStr s_abc)];
+     pfns := [ {| fname := 2; fparams := [(3, TStr); (4, TInt)]; fret := TStr;
+                  fbody := SReturn (Some (EStr2 SPlus (EVar 3) (EStr1 SOfInt (EVar 4)))) |};
+               {| fname := 4; fparams := [(5, TStr)]; fret := TInt;
+                  fbody := SSeq (SPrint true (EVar 5)) (SReturn (Some (EStr1 SLen (EVar 5)))) |};
+               {| fname := 0; fparams := []; fret := TInt; fbody := SReturn (Some (ENum 0)) |} ];
+     pmain := 0 |}.
+(* inside names_apart: (f2 v1 -42) = "abc-42"; str_equals, str_concat through a printing call, str_contains, char_at,
+   str_substring of a literal from a start inside it (length clamped) *)
+Definition spstr_good : sprogram :=
+  {| sp_prog := pstr;
+     sp_shadows := [ {| sh_fn := 2;
+                        sh_body := SSeq (SLet false 7 TStr (ECall 2 [EVar 1; ENum (-42)]))
+                                  (SSeq (SPrint true (EVar 7))
+                                  (SSeq (SAssert (EStr2 SEquals (EVar 7) (EStr [97; 98; 99; 45; 52; 50])))
+                                  (SSeq (SAssert (eqz (ECall 4 [EStr2 SConcat (EVar 7) (EStr [33])]) 7))
+                                  (SSeq (SAssert (EStr2 SContains (EVar 7) (EStr [99; 45])))
+                                  (SSeq (SAssert (eqz (EStr2 SCharAt (EVar 7) (ENum 1)) 98))
+                                        (SAssert (EBin BEq (ESubstr (EStr [104; 101; 108; 108; 111]) (ENum 1) (ENum 300)) (EStr [101; 108; 108; 111]))))))));
+                        sh_skip := false |} ] ; sp_imported := [] |}.
+(* str_substring with start = length of the string: the language (and both engines) yield "", the evaluator yields void and
+   the test FAILS at compile time (finding c03:builtin:str_substring:start-at-or-past-the-end-is-void-in-the-evaluator) *)
+Definition spstr_past_end : sprogram :=
+  {| sp_prog := pstr;
+     sp_shadows := [ {| sh_fn := 4;
+                        sh_body := SAssert (EBin BEq (ESubstr (EVar 1) (ENum 3) (ENum 2)) (EStr []));
+                        sh_skip := false |} ] ; sp_imported := [] |}.
+(* char_at outside the string inside a shadow test: the reference is undefined there (FStrDomain: the engines disagree, finding
+   lang:char-at-out-of-range), the evaluator yields void and the comparison with 0 fails *)
+Definition spstr_char_at_outside : sprogram :=
+  {| sp_prog := pstr;
+     sp_shadows := [ {| sh_fn := 4; sh_body := SAssert (eqz (EStr2 SCharAt (EVar 1) (ENum 3)) 0); sh_skip := false |} ] ; sp_imported := [] |}.
